@@ -1456,3 +1456,49 @@ Proof.
   exists 60, full30. split; [reflexivity|]. split; [vm_compute; discriminate|].
   intros data' H. apply firstn_all2. cbn [length]. lia.
 Qed.
+
+(* ------------------------------------------------------------------ instance ids are never shared (wave 15) *)
+
+Lemma NoDup_snoc {A} (l : list A) x : NoDup l -> ~ In x l -> NoDup (l ++ [x]).
+Proof.
+  induction l as [|a l IH]; intros H Hx; cbn [app].
+  - constructor; [intros []|constructor].
+  - inversion H as [|? ? Ha Hl]; subst. constructor.
+    + intros Hin. apply in_app_or in Hin as [Hin|[<-|[]]]; [now apply Ha|apply Hx; now left].
+    + apply IH; [assumption|]. intros Hin. apply Hx. now right.
+Qed.
+
+Lemma NoDup_filter' {A} (f : A -> bool) l : NoDup l -> NoDup (filter f l).
+Proof.
+  induction 1 as [|a l Ha _ IH]; cbn [filter]; [constructor|].
+  destruct (f a); [|exact IH]. constructor; [|exact IH].
+  intros Hin. apply filter_In in Hin as [Hin _]. now apply Ha.
+Qed.
+
+Definition ids_ok (st : Z * list Z) : Prop := NoDup (snd st) /\ Forall (fun i => 0 <= i < fst st) (snd st) /\ 0 <= fst st.
+
+Lemma istep_counter_ok st e : ids_ok st -> ids_ok (istep_counter st e).
+Proof.
+  destruct st as [n l]. intros (H1 & H2 & H3). cbn [fst snd] in H1, H2, H3.
+  destruct e as [|i]; cbn [istep_counter fst snd]; unfold ids_ok; cbn [fst snd].
+  - split; [|split; [|lia]].
+    + apply NoDup_snoc; [exact H1|]. intros Hin. rewrite Forall_forall in H2. specialize (H2 n Hin). lia.
+    + apply Forall_app. split.
+      * eapply Forall_impl; [|exact H2]. cbv beta. intros a Ha. lia.
+      * constructor; [lia|constructor].
+  - split; [now apply NoDup_filter'|]. split; [|exact H3].
+    rewrite Forall_forall in *. intros x Hx. apply filter_In in Hx as [Hx _]. now apply H2.
+Qed.
+
+Lemma instance_ids_distinct evs : NoDup (snd (irun_counter evs)).
+Proof.
+  assert (H : forall st, ids_ok st -> ids_ok (fold_left istep_counter evs st)).
+  { induction evs as [|e evs IH]; intros st Hst; [exact Hst|]. cbn [fold_left]. apply IH. now apply istep_counter_ok. }
+  apply (H (0, [])). unfold ids_ok. cbn [fst snd]. split; [constructor|]. split; [constructor|lia].
+Qed.
+
+Lemma instance_ids_by_count_refuted : exists evs, ~ NoDup (irun_len evs).
+Proof.
+  exists [IOpen; IOpen; IClose 0; IOpen]. vm_compute. intros H.
+  inversion H as [|? ? Hn _]; subst. apply Hn. now left.
+Qed.
